@@ -552,9 +552,10 @@ def check_copies(node, dialects, rec=None, only=None):
     """copy.copy / _clone() / pickle round trip compile like the original (``only``: index of the single dialect
     the explorer uses for this node -- it rotates over the nodes; a probe uses all of them)"""
     st = node.stmt
-    base_snap = node.snap
+    all_dialects = dialects
+    one = (dialects, node.snap)
     if only is not None:
-        dialects, base_snap = [dialects[only]], (node.snap[only],)
+        one = ([dialects[only]], (node.snap[only],))
     variants = [("copy.copy", lambda: copy.copy(st))]
     if hasattr(st, "_clone"):
         variants.append(("_clone()", lambda: st._clone()))
@@ -576,6 +577,9 @@ def check_copies(node, dialects, rec=None, only=None):
         node.keep.append(cp)
         if rec:
             rec.transition()
+        # the shallow copies share every element with the original: one (rotating) dialect; the pickle round trip
+        # builds new elements (and, in the tree, pickles whatever the earlier compilations memoised): every dialect
+        dialects, base_snap = (all_dialects, node.snap) if what == "pickle round trip" else one
         snap = snapshot(cp, dialects)
         if snap != base_snap:
             d = first_diff(base_snap, snap, dialects)
